@@ -17,7 +17,7 @@ RULE = (
     "geometries positioned from the dataset's own cells (box inside a cell, a cell's envelope, "
     "everything, first row, touching the hull along an edge / at a corner, line, point, shared vertex, "
     "two-part multipolygon, polygon with a hole, far away, line along a cell edge) x buffer 0..3.  Part B "
-    "(primitives, exhaustive): every boolean array of every shape r x c, r,c <= 4 (quick: r*c <= 12) x "
+    "(primitives, exhaustive): every boolean array of every shape r x c, r,c <= 4 (quick: r*c <= 12; thorough also 1x5..3x5 and 5x1..5x3) x "
     "blur_mask size 1..3, smear_mask with the three pad patterns and c_mask_from_centres; every subset of "
     "faces of every library mesh (M7/M9: all 2^12 in thorough, all subsets of <= 3 faces in quick) x "
     "buffer_faces and mask_from_face_indexes.  Oracle: brute-force intersects, Chebyshev dilation, "
@@ -48,6 +48,8 @@ def array_shapes(tier):
             if tier == 'quick' and r * c > 12:
                 continue
             out.append((r, c))
+    if tier == 'thorough':
+        out += [(1, 5), (5, 1), (2, 5), (5, 2), (3, 5), (5, 3)]
     return out
 
 
